@@ -68,6 +68,44 @@ def gen_ids_corpus(rng, base_sentences, types, nids, maxlen):
     return lines
 
 
+def gen_repeat_corpus(rng, base_lines, types, maxlen):
+    """duplicated text: every line of a base text (small vocabulary, saturated early) occurs 2..5 times at random places of the
+    corpus, plus a few boilerplate lines that come back every few dozen lines (headers / footers / licences).  Equal n-grams -- also
+    the greatest ones of the suffix order -- then sit in many different sorted runs, i.e. at the junctions of the merges."""
+    base = [" ".join(zipf_word(rng, types) for _ in range(rng.range(3, maxlen))) for _ in range(base_lines)]
+    lines = []
+    for l in base:
+        lines += [l] * rng.choice([2, 2, 3, 5])
+    rng.shuffle(lines)
+    boiler = [rng.choice(base) for _ in range(rng.range(1, 3))] + [" ".join([zipf_word(rng, types)] * rng.range(2, 5))]
+    out = []
+    for i, l in enumerate(lines):
+        out.append(l)
+        if i % rng.choice([17, 40, 90]) == 0:
+            out.append(rng.choice(boiler))
+    return out
+
+
+def gen_vocab_corpus(rng, ntypes, prefix):
+    """vocabulary growth: tens of thousands of distinct word types, ten new ones per line, and old lines coming back all the time
+    (the next line, a recent line, any earlier line), so that every word is looked up again soon after it was first seen and
+    also much later -- while GrowableVocab's table doubles again and again when --vocab_estimate is far too small."""
+    lines = []
+    fresh = []
+    for i in range(0, ntypes, 10):
+        l = " ".join("%s%d" % (prefix, j) for j in range(i, min(ntypes, i + 10)))
+        lines.append(l)
+        fresh.append(l)
+        r = rng.below(4)
+        if r == 0:
+            lines.append(l)
+        elif r == 1:
+            lines.append(fresh[max(0, len(fresh) - 1 - rng.below(50))])
+        elif r == 2:
+            lines.append(fresh[rng.below(len(fresh))])
+    return lines
+
+
 def prune_options(rng, order):
     """--prune thresholds (non-decreasing, 0 for unigrams) that prune at least the highest order"""
     if order < 2:
@@ -278,6 +316,14 @@ def run_lmplz(ctx, tool, corpus, order, cfg, tag, extra=()):
     if rc == 0:
         ctx.counts.setdefault("_truncs", []).append(truncs)
         dig = {}
+        try:
+            with open(os.path.join(wd, "out.arpa"), errors="replace") as fh:
+                for _i in range(12):
+                    ln = fh.readline()
+                    if ln.startswith("ngram 1="):
+                        dig["_ngram1"] = int(ln.split("=")[1])
+        except (OSError, ValueError):
+            pass
         for f in sorted(glob.glob(os.path.join(wd, "out.arpa")) + glob.glob(os.path.join(wd, "int*"))):
             if os.path.isfile(f):
                 dig[os.path.basename(f)] = hashlib.sha256(open(f, "rb").read()).hexdigest() + ":%d" % os.path.getsize(f)
@@ -314,6 +360,10 @@ def lattice(rng, big):
         {"S": "150K", "vocab_estimate": 10, "sort_block": "37K", "minimum_block": "64b", "block_count": 1},
         {"S": "200K", "vocab_estimate": 10, "sort_block": "50K", "minimum_block": "64b", "block_count": 2},
         {"S": "400K", "vocab_estimate": 10, "sort_block": "64K", "minimum_block": "1K", "block_count": 3},
+        # small enough that the counting step spills many runs even on a few thousand sentences (equal n-grams at many merge junctions)
+        {"S": "100K", "vocab_estimate": 10, "sort_block": "8K", "minimum_block": "64b", "block_count": 2},
+        {"S": "60K", "vocab_estimate": 5, "sort_block": "4K", "minimum_block": "64b", "block_count": 1},
+        {"S": "20K", "vocab_estimate": 2, "sort_block": "2K", "minimum_block": "64b", "block_count": 2},
         # tiny settings: accepted or legitimately rejected (a rejected run is not a violation)
         {"S": "40K", "vocab_estimate": 1, "sort_block": "1K", "minimum_block": "64b", "block_count": 1},
         {"S": "6K", "vocab_estimate": 1, "sort_block": "512b", "minimum_block": "64b", "block_count": 1},
@@ -361,6 +411,19 @@ def run(ctx):
             iline = "CC %x %x %x %x %s" % (order, bc, mem, ve, path)
             mline = "CC %x %x %s" % (order, cap, " ".join(" ".join(hx(w) for w in s) + " /" for s in sents).replace("  ", " "))
             comp.append((iline, mline, order, sents, len(vocab), cap))
+    # vocabulary growth at component level: tens of thousands of types, the vocabulary estimate far too small, words recurring
+    for i in range(ctx.pick(2, 6)):
+        nt = rng.range(12000, ctx.pick(30000, 60000))
+        lines = gen_vocab_corpus(rng, nt, rng.choice(["w", "y", "tk"]) + "klmnop"[i])
+        path = os.path.join(corpdir, "v%d.txt" % i)
+        open(path, "w").write("".join(l + "\n" for l in lines))
+        sents, vocab = ids_of(lines)
+        order = rng.choice([1, 1, 2])
+        es = 4 * order + 8
+        cap = rng.range(20, 300)
+        iline = "CC %x %x %x %x %s" % (order, 2, cap * es * 2, rng.choice([1, 10, 500, 1000]), path)
+        mline = "CC %x %x %s" % (order, cap, " ".join(" ".join(hx(w) for w in s_) + " /" for s_ in sents))
+        comp.append((iline, mline, order, sents, len(vocab), cap))
     # hand-made boundary corpora (corpus/C07/*.txt): every order 1..4 x capacities 1, 2, 3, 5 -- run first in the oracle's order
     hand = []
     for path in sorted(glob.glob(os.path.join(vlib.ROOT, "corpus", "C07", "*.txt"))):
@@ -453,10 +516,22 @@ def run(ctx):
     # --prune the highest-order stream is marked and collapsed block by block (adjust_counts.cc CollapseStream), and the
     # joins of the later stages go through hash tables instead of positions.
     corpora = []
-    for i in range(ctx.pick(2, 6)):
+    for i in range(ctx.pick(1, 6)):
         lines = gen_corpus(rng, ctx.pick(3000, 6000), rng.choice([150, 300, 600]), rng.choice([12, 20]), "zipf")
         order = rng.range(3, 5) if i == 0 else rng.range(2, 5)
         corpora.append(("zipf%d" % i, lines, order, [] if i % 2 == 0 else prune_options(rng, order)))
+    for i in range(ctx.pick(2, 4)):
+        order = rng.choice([3, 3, 4])
+        lines = gen_repeat_corpus(rng, ctx.pick(1800, 3000), rng.choice([100, 200, 400]), rng.choice([12, 18]))
+        corpora.append(("repeats%d" % i, lines, order, [] if i % 2 == 0 else prune_options(rng, order)))
+    # vocabulary growth: only --vocab_estimate (and -S) vary; the reference never grows its table
+    for i in range(ctx.pick(2, 4)):
+        nt = rng.range(ctx.pick(30000, 50000), ctx.pick(45000, 90000))
+        lines = gen_vocab_corpus(rng, nt, rng.choice(["w", "x", "tok", "v_", "q"]) + "abcdefghij"[i])
+        vl = [{"S": "40M", "vocab_estimate": 2 * nt + 1000}, {"S": "40M", "vocab_estimate": 10}, {"S": "40M", "vocab_estimate": 500},
+              {"S": "40M", "vocab_estimate": 1000}, {"S": "40M", "vocab_estimate": nt // 2}, {"S": "40M", "vocab_estimate": rng.range(2, nt)},
+              {"S": "3M", "vocab_estimate": rng.range(2, 3000), "sort_block": "64K", "minimum_block": "1K"}]
+        corpora.append(("vocab%d" % i, lines, 2, [], vl))
     for i in range(ctx.pick(1, 3)):
         order = rng.choice([3, 3, 4])
         lines = gen_ids_corpus(rng, ctx.pick(2500, 5000), rng.choice([150, 400]), ctx.pick(500, 1500), 12)
@@ -475,28 +550,39 @@ def run(ctx):
         corpora.append(("zipf-limit-vocab", gen_corpus(rng, 4000, 300, 12, "zipf"), 3, ["--limit_vocab_file", vocab_file]))
         corpora.append(("ids-limit-vocab", gen_ids_corpus(rng, 3000, 300, 800, 12), 3, ["--limit_vocab_file", vocab_file, "--prune", "0", "0", "1"]))
     failed_runs, failed_msgs, nothing_accepted = 0, {}, []
-    for name, lines, order, extra in corpora:
+    for entry in corpora:
+        name, lines, order, extra = entry[:4]
         path = os.path.join(corpdir, "%s.txt" % name)
         open(path, "w").write("".join(l + "\n" for l in lines))
+        ntypes = len({w for l in lines for w in l.split()})
         ref = None
         per_cfg = []
-        cfgs = list(lat)
+        cfgs = list(entry[4]) if len(entry) > 4 else list(lat)
         # repeated runs of the same configuration: the OS schedules the worker threads differently each time; pinning every
         # thread to one CPU (taskset) and lowering the priority (nice) forces very different interleavings
-        reps = [cfgs[0], cfgs[6], cfgs[10]] * ctx.pick(1, 3)
-        reps += [dict(cfgs[6], _prefix=["taskset", "-c", "0"]), dict(cfgs[10], _prefix=["taskset", "-c", "0"]),
-                 dict(cfgs[0], _prefix=["nice", "-n", "19", "taskset", "-c", "0,1"])]
+        if len(entry) > 4:
+            reps = [dict(cfgs[1], _prefix=["taskset", "-c", "0"])]
+        else:
+            reps = [cfgs[0], cfgs[6], cfgs[10]] * ctx.pick(1, 3)
+            reps += [dict(cfgs[6], _prefix=["taskset", "-c", "0"]), dict(cfgs[10], _prefix=["taskset", "-c", "0"]),
+                     dict(cfgs[0], _prefix=["nice", "-n", "19", "taskset", "-c", "0,1"])]
         for j, cfg in enumerate(cfgs + reps):
             kind, res, cmdline = run_lmplz(ctx, tool, path, order, cfg, "%s-%d" % (name, j), extra)
             tool_runs += 1
             per_cfg.append((kind, cfg))
             if kind == "ok":
                 accepted += 1
+                n1 = res.pop("_ngram1", None)
+                # hash-table growth never changes the data: the unigram section lists every distinct type once (+ <unk> <s> </s>)
+                if n1 is not None and "--limit_vocab_file" not in extra and n1 != ntypes + 3:
+                    spec_fail.append(("lmplz:unigram-count", {"corpus": "\n".join(lines)[:3000000], "order": order, "cmd": cmdline, "cfg": cfg, "extra": extra,
+                                                               "expected_ngram1": ntypes + 3, "ngram1": n1},
+                                      "the ARPA header declares %d unigrams, the corpus has %d distinct word types + <unk> <s> </s>" % (n1, ntypes)))
                 if ref is None:
                     ref = (res, cmdline, cfg)
                 elif res != ref[0]:
                     diff = sorted(k for k in set(res) | set(ref[0]) if res.get(k) != ref[0].get(k))
-                    spec_fail.append(("lmplz:bytes-differ", {"corpus": "\n".join(lines)[:400000], "order": order, "reference_cmd": ref[1], "differing_cmd": cmdline,
+                    spec_fail.append(("lmplz:bytes-differ", {"corpus": "\n".join(lines)[:3000000], "order": order, "reference_cmd": ref[1], "differing_cmd": cmdline,
                                                              "reference_cfg": ref[2], "differing_cfg": cfg, "extra": extra, "files_that_differ": diff},
                                       "lmplz output differs between two accepted configurations: %s" % ", ".join(diff)))
             elif kind == "rejected":
@@ -505,7 +591,7 @@ def run(ctx):
                 failed_runs += 1
                 failed_msgs.setdefault(res[:120], cmdline)
             else:
-                spec_fail.append(("lmplz:" + kind, {"corpus": "\n".join(lines)[:400000], "order": order, "cmd": cmdline, "cfg": cfg, "extra": extra, "stderr": res},
+                spec_fail.append(("lmplz:" + kind, {"corpus": "\n".join(lines)[:3000000], "order": order, "cmd": cmdline, "cfg": cfg, "extra": extra, "stderr": res},
                                   "lmplz %s under an accepted-looking configuration: %s" % (kind, res[:200])))
         lattice_report.append({"corpus": name, "sentences": len(lines), "order": order, "options": " ".join(extra), "accepted": sum(1 for k, _ in per_cfg if k == "ok"),
                                "rejected": sum(1 for k, _ in per_cfg if k == "rejected")})
@@ -574,10 +660,15 @@ def replay(ctx, obj):
                 kind, res, cmdline = run_lmplz(ctx, tool, path, r["order"], r[key], "replay-" + key, r.get("extra", []))
                 print(key + ":", "lmplz", cmdline, "->", kind, res if kind != "ok" else "")
                 results.append((kind, res))
+        if "expected_ngram1" in r:
+            for k, res in results:
+                if k == "ok" and res.get("_ngram1") != r["expected_ngram1"]:
+                    print("oracle: ARPA header declares %s unigrams, expected %s" % (res.get("_ngram1"), r["expected_ngram1"]))
+                    return 1
         if any(k in ("crash", "hang") for k, _ in results):
             print("oracle: lmplz crashed / hung under a configuration it accepted")
             return 1
-        oks = [res for k, res in results if k == "ok"]
+        oks = [{f: v for f, v in res.items() if f != "_ngram1"} for k, res in results if k == "ok"]
         if len(oks) == 2 and oks[0] != oks[1]:
             print("oracle: outputs differ:", sorted(k for k in set(oks[0]) | set(oks[1]) if oks[0].get(k) != oks[1].get(k)))
             return 1
